@@ -197,7 +197,9 @@ def run(db, chk):
     if n_regions == 0:
         raise AnalysisBroken("no run_blocks call site found")
 
-    chk.absorb(db, "C11", {"C11-A1", "C11-A2a", "C11-A2b", "C11-A2c", "C11-A7", "C11-P1", "C11-A3b"}, "C10-X4",
+    chk.absorb(db, "C04", {"C04-S2"}, "C10-X7", "the sequential router body and the parallel callable give the same "
+               "receiver and distance on every abstract neighbourhood (shared with C04-S2)", min_instances=100)
+    chk.absorb(db, "C11", {"C11-A1", "C11-A2a", "C11-A2b", "C11-A2c", "C11-A7", "C11-P1", "C11-P2", "C11-A3b"}, "C10-X4",
                "the worker pool hands every block to exactly one worker and returns after all of them "
                "finished (shared with C11: hand-off orders, pause / resume handshake, block partition)",
                min_instances=10)
